@@ -1167,6 +1167,16 @@ class RpcServer:
             error_message = str(exc)
             with contextlib.suppress(BrokenPipeError, OSError):
                 _write_error_stream(transport.writer, _EMPTY_SCHEMA, exc, server_id=self._server_id)
+            if info.header_type is None:
+                # The client of a header-less stream cannot see this error before
+                # it has opened its input stream (its first tick / exchange batch,
+                # or the empty stream close() writes), so that stream is on the
+                # wire.  Consume it, or the next request on this connection would
+                # be read from the middle of it.  A header-declaring stream's
+                # client reads the header first, finds the error there and sends
+                # no input.
+                with contextlib.suppress(pa.ArrowInvalid, OSError, EOFError):
+                    _drain_stream(ValidatedReader(ipc.open_stream(transport.reader), self._ipc_validation))
             return
         finally:
             if status == "error":
